@@ -15,8 +15,11 @@ DECL = """int i; int[0,3] j; const int ci = 2; bool bb; bool b2; double d; clock
 typedef scalar[3] S1; typedef scalar[3] S2; S1 s1, s1b; S2 s2;
 typedef struct { int a; int b; } ST; ST st, st2; typedef struct { int a; bool b; } SU; SU su;
 int ar[2], ar2[2]; int ar3[3]; chan c, c2; broadcast chan bc; int f1(int q) { return q; } double fd() { return 1.0; }
+typedef S1 S1a; S1a s1a; typedef S1a S1aa; S1aa s1aa; typedef ST STa; STa sta; typedef int[0,3] R3; typedef R3 R3a; R3a j2;
+typedef int A2[2]; typedef A2 A2a; A2a ara; typedef clock CK; typedef CK CKa; CKa xa; meta int mi;
 """
-POOL_Q = ["i", "j", "ci", "bb", "d", "x", "x - y", "s1", "s2", "st", "ar", "c", '"abc"', "i + 1", "d * 2.0", "1", "1.5"]
+POOL_Q = ["i", "j", "ci", "bb", "d", "x", "x - y", "s1", "s2", "st", "ar", "c", '"abc"', "i + 1", "d * 2.0", "1", "1.5",
+          "s1a", "s1aa", "sta", "j2", "ara", "xa", "mi"]
 POOL_T = POOL_Q + ["s1b", "st2", "su", "ar2", "ar3", "bc", "true", "f1(i)", "fd()", "st.a", "ar[0]", "x + 1", "-i", "!bb",
                    "i < j", "x < 5", "x - y < 3", "bb && x < 5"]
 OPS = ["+", "*", "==", "!=", "&&", "||", "&", "|", "^", "<?", ">?"]
@@ -125,6 +128,14 @@ RTYPES = {  # name -> (typedef text, equivalence class per the statement / langu
     "TyA3": ("typedef int TyA3[3];", "array:3:int"),
     "TyAS1": ("typedef int TyAS1[TyS1];", "array:S1:int"),
     "TyAS2": ("typedef int TyAS2[TyS2];", "array:S2:int"),
+    # aliases of the above (typedef of a typedef); class None = only symmetry is demanded (whether an alias of a scalar set
+    # names the same set is not settled by the statement)
+    "TyS1a": ("typedef TyS1 TyS1a;", None),
+    "TyS1aa": ("typedef TyS1a TyS1aa;", None),
+    "TyRa": ("typedef TyR TyRa;", "int:0,3"),
+    "TySTa": ("typedef TyST TySTa;", "struct:a:int,b:int"),
+    "TyA2a": ("typedef TyA2 TyA2a;", "array:2:int"),
+    "TyAS1a": ("typedef int TyAS1a[TyS1a];", None),
 }
 
 
@@ -171,6 +182,8 @@ def run_refparams(rep):
                            "argument of type %s for `%s%s &` is %s but argument of type %s for `%s%s &` is %s" %
                            (a, "const " if fn == "g" else "", b, v, b, "const " if fn == "g" else "", a, mirror), rp)
         expect = "accepted" if RTYPES[a][1] == RTYPES[b][1] else "rejected"
+        if RTYPES[a][1] is None or RTYPES[b][1] is None:
+            expect = "accepted" if a == b else v
         if v != expect:
             part.violation("refparam-equiv:%s:%s->%s" % (fn, a, b),
                            "argument of type %s (%s) for reference parameter of type %s (%s) is %s, equivalence says %s" %
@@ -199,6 +212,8 @@ def run_refparams(rep):
             part.violation("tplrefparam-asym:%s|%s" % (a, b), "template reference parameter: %s->%s& is %s, %s->%s& is %s" %
                            (a, b, v, b, a, ttab[(b, a)]), {"op": "xml", "buf": doc})
         expect = "accepted" if RTYPES[a][1] == RTYPES[b][1] else "rejected"
+        if RTYPES[a][1] is None or RTYPES[b][1] is None:
+            expect = "accepted" if a == b else v
         if v != expect:
             part.violation("tplrefparam-equiv:%s->%s" % (a, b),
                            "template: argument of type %s for reference parameter of type %s is %s, equivalence says %s" %
